@@ -31,9 +31,9 @@ pub struct HCall {
     pub call: Call,
 }
 
-/// TLA+ source files stay ASCII: %NU% stands for the nu sign, %RHO% for a one-character Greek label
+/// TLA+ source files stay ASCII: %NU% stands for the nu sign, %RHO% for a one-character Greek label, %ALPHA% for the alpha sign
 pub fn unplace(s: &str) -> String {
-    s.replace("%NU%", "ν").replace("%RHO%", "ρ")
+    s.replace("%NU%", "ν").replace("%RHO%", "ρ").replace("%ALPHA%", "α")
 }
 
 fn unplace_prog(prog: &Value) -> Value {
